@@ -86,7 +86,7 @@ def _ops():
 
 KEYLESS = ('complement', 'intersection', 'recordcomplement', 'diff_added', 'diff_subtracted', 'pivot', 'unjoin_left',
            'unjoin_right')
-NO_PRESORTED = ('sort', 'recordcomplement', 'pivot', 'mergesort', 'unjoin_left', 'unjoin_right')
+NO_PRESORTED = ('sort', 'recordcomplement', 'pivot', 'mergesort')
 
 
 class C11(Prop):
@@ -126,6 +126,20 @@ class C11(Prop):
                 for bs in (1, 2, 3, None):
                     for cache in (True, False):
                         yield Case('sv_history', (key, rev, bs, cache, t, ((1,), (1,), (1,))))
+        # whole-row sorts (key=None) of ragged tables: rows that differ only beyond / before the header's width
+        rag = (hdr, ('b', 'x', 1, 'extra'), ('b', 'x', 1), ('a',), ('a', None, None), ('b', 'x'), ('a', None), ('b', 'x', None),
+               ('a', None, None, 0))
+        for st in ((1, True, False, False, None), (2, True, False, False, None), (3, False, False, False, None),
+                   (None, True, False, False, 2), (8, True, False, False, None), (9, True, False, False, None)):
+            yield Case('const_true', ('strategy', 'sort', (rag,), None, st))
+            yield Case('const_true', ('strategy', 'sort', ((hdr,) + rag[:0:-1],), None, st))
+            yield Case('const_true', ('strategy', 'distinct', (rag,), None, st))
+            yield Case('const_true', ('strategy', 'duplicates', ((hdr,) + rag[:0:-1],), None, st))
+        # unjoin on a table sorted by the key whose duplicate rows are not adjacent
+        uj = (hdr, ('a', 'x', 1), ('a', 'y', 2), ('a', 'x', 1), ('b', 'x', 3), ('b', 'y', 3), ('b', 'x', 3))
+        for nm in ('unjoin_left', 'unjoin_right'):
+            for st in ((None, True, False, True, None), (2, True, False, False, None), (None, False, False, True, None)):
+                yield Case('const_true', ('strategy', nm, (uj,), None, st))
         # set operations on overlapping tables, every strategy incl. presorted
         a = (hdr, ('a', 'x', 1), ('b', 'y', 2), ('a', 'x', 1), ('c', None, 3), ('b', 'y', 2))
         b = (hdr, ('b', 'y', 2), ('d', 'x', 1), ('a', 'x', 1), ('c', None, 3))
@@ -190,7 +204,7 @@ class C11(Prop):
         srcs = sources if sources is not None else [[list(r) for r in t] for t in ts]
         if presorted:
             # presorted=True is only meaningful on inputs sorted by the key the operator sorts by
-            skey = key
+            skey = 'k' if name.startswith('unjoin') else key      # unjoin(key='k'): sorted by the key only
             # (rows of the even sources are handed over as lists, those of the odd ones as tuples)
             if flip is None:
                 flip = len(srcs[0]) % 2
@@ -295,8 +309,12 @@ class C11(Prop):
                 tabs = list(case.arg[2]) + list(case.arg[3])
                 if len(case.arg[2]) != _ops()[case.arg[1]][0] or len(case.arg[3]) != len(case.arg[2]):
                     return False
+            ragged_ok = case.op == 'const_true' and case.arg[0] == 'strategy' and case.arg[3] is None \
+                and case.arg[1] in ('sort', 'distinct', 'duplicates')
             for t in tabs:
-                if len(t) < 1 or tuple(t[0]) != ('k', 'a', 'v') or not all(len(r) == 3 for r in t[1:]):
+                if len(t) < 1 or tuple(t[0]) != ('k', 'a', 'v'):
+                    return False
+                if not all(len(r) == 3 or (ragged_ok and 1 <= len(r) <= 4) for r in t[1:]):
                     return False
             return True
         except Exception:
